@@ -111,7 +111,8 @@ INTEGRAL_CLASSES = ["ConstantValue", "FunctionLinear", "FunctionMultilinear", "F
                     "GenzCornerPeak", "GenzProductPeak", "GenzOszillatory", "GenzDiscontinious", "GenzDiscontinious2",
                     "GenzC0", "GenzGaussian", "FunctionExpVar", "FunctionG", "FunctionDiagonalDiscont", "FunctionCompose",
                     "FunctionShift", "LambdaFunction"]
-HISTORY_EXTRA = ["CustomFunction", "FunctionCustom", "FunctionConcatenate", "FunctionPower", "FunctionUQ2", "FunctionGShifted"]
+HISTORY_EXTRA = ["CustomFunction", "FunctionCustom", "FunctionConcatenate", "FunctionPower", "FunctionUQ2", "FunctionGShifted",
+                 "CustomFunctionMixedTypes", "FunctionCustomMixedTypes"]
 
 
 def make_history_function(name, d, rng):
@@ -123,6 +124,14 @@ def make_history_function(name, d, rng):
         k = rng.randint(1, 3)
         ws = [rng.uniform(-1, 1) for _ in range(k)]
         return (lambda: F.CustomFunction(lambda x: [math.sin(w + sum(x)) for w in ws], output_length=k)), "any", k
+    if name == "CustomFunctionMixedTypes":
+        # user callables whose value is a python int at some points and a float at others (max(0, ...), indicator-like ramps)
+        k = rng.randint(1, 3)
+        ws = [rng.uniform(-0.5, 1.5) for _ in range(k)]
+        return (lambda: F.CustomFunction(lambda x: [max(0, sum(x) - w) for w in ws], output_length=k)), "any", k
+    if name == "FunctionCustomMixedTypes":
+        ws = [rng.uniform(-0.5, 1.5) for _ in range(rng.randint(2, 3))]
+        return (lambda: F.FunctionCustom([(lambda x, w=w: max(0, min(1, sum(x) - w))) for w in ws])), "any", len(ws)
     if name == "FunctionCustom":
         ws = [rng.uniform(-1, 1) for _ in range(rng.randint(2, 3))]
         return (lambda: F.FunctionCustom([(lambda x, w=w: math.cos(w * sum(x))) for w in ws])), "any", len(ws)
@@ -243,7 +252,7 @@ def run_history(case, res):
                       "%s: f(point) has shape %s, expected (%d,)" % (name, getattr(v, "shape", None), ol), ctx)
             res.check("value_single", _rel_close(v, truth(p)), "C12_value_single",
                       "%s: f(point) differs from a fresh eval at %s: %s vs %s" % (name, p, v, truth(p)), ctx)
-            if isinstance(v, np.ndarray) and rng.random() < 0.35:
+            if isinstance(v, np.ndarray) and v.dtype.kind == "f" and rng.random() < 0.35:
                 # the caller owns what it got: in-place arithmetic on the result must not reach the cache
                 v *= -3.0
                 v += 7.0
@@ -283,7 +292,7 @@ def run_history(case, res):
             exp = np.array([truth(p) for p in batch])
             res.check("value_batch", _rel_close(v, exp), "C12_value_batch",
                       "%s: f(batch) differs from fresh evals" % name, dict(ctx, observed=v, expected=exp, batch=batch))
-            if isinstance(v, np.ndarray) and rng.random() < 0.35:
+            if isinstance(v, np.ndarray) and v.dtype.kind == "f" and rng.random() < 0.35:
                 v *= -3.0
                 v += 7.0
                 kinds.append("mutate_batch_result")
